@@ -75,20 +75,44 @@ theorem literal_vector_cast_panics_msl (cx : Ctx) (vvty : Var → VTy) (n : Nat)
   exact ⟨⟨_, rfl⟩, ⟨_, rfl⟩⟩
 
 /-- **statement-level vector assignment** `v = E;`, `v.xz = E;`, `v op= E;`, `v.yx op= E;` (vector local / static in scope, a
-swizzle with distinct components of a variable of vector type; all assignment operators — `%=` only on integers): the emitted
-statement is accepted by Metal's rules (implicit conversion of the right operand: the identity here, distinct swizzle
-components) and leaves the same value, scalar store and vector store as the typed assignment. -/
+swizzle with distinct components of a variable of vector type; ALL assignment operators — since fixes 92d66eb + 35faaaa also
+`%=` on floating-point places, which was excluded before: Metal has no such operator, the exporter emitted it all the same):
+whatever the exporter emits for the assignment (`hg`) is accepted by Metal's rules (implicit conversion of the right
+operand: the identity here, distinct swizzle components) and leaves the same value, scalar store and vector store as the
+typed assignment.  The emitted statement is `l op r` with the operator of the table, except for `%=` on a floating-point
+place: there it is `l = metal::fmod(l, r)` — the exporter's own guard (`is_plain_place(l)`, `is_free_of_writes(r)`: else
+`ComplexRemainderAssignment`, no output) holds whenever there is an output. -/
 theorem gen_sem_msl_vec_assign {W : World} {M : Msl.MWorld} {env : VAst.VEnv} {cx : Ctx} {vvty : Var → VTy} {vis : Var → Bool}
     {rsv : Nat → List Var} (hag : VAgreeM cx vis env vvty) (hw : Worlds cx rsv W M)
-    {o : IntrinsicOp} {b : BinOp} {lhs rhs : VExpr} {lhs' rhs' : VAExpr} {T : VTy}
-    (hf : mslOpForm o = .binary b) (hgl : genMV cx vvty lhs = .ok lhs') (hgr : genMV cx vvty rhs = .ok rhs')
+    {o : IntrinsicOp} {lhs rhs : VExpr} {lhs' rhs' a : VAExpr} {T : VTy}
+    (hgl : genMV cx vvty lhs = .ok lhs') (hgr : genMV cx vvty rhs = .ok rhs')
+    (hg : genMV cx vvty (.op o (.cons lhs (.cons rhs .nil))) = .ok a)
     (hok : VIr.assignOK W.sig cx.vty vvty lhs rhs = some T) (hpl : placeOKM vis vvty lhs = true)
     (hol : VOk.okMV (side cx W vis rsv) vvty lhs = true) (hor : VOk.okMV (side cx W vis rsv) vvty rhs = true)
-    (hsem : irOpSem o = .assign ∨ ∃ m, irOpSem o = .compound m ∧ binSide m T ∧ (m = .mod → T.scalar ≠ .float)) :
-    genMV cx vvty (.op o (.cons lhs (.cons rhs .nil))) = .ok (.bin b lhs' rhs') ∧
+    (hsem : irOpSem o = .assign ∨ ∃ m, irOpSem o = .compound m ∧ binSide m T) :
+    ((irOpSem o = .compound .mod ∧ T.scalar = .float ∧ plainPlaceV lhs = true ∧ freeOfWritesV rhs = true ∧
+        a = .bin .Assignment lhs' (.call Msl.fmodName (.cons lhs' (.cons rhs' .nil)))) ∨
+      (¬ (irOpSem o = .compound .mod ∧ T.scalar = .float) ∧ ∃ b, astBinSem b = irOpSem o ∧ a = .bin b lhs' rhs')) ∧
     ∀ ρ, (∀ y, VOk.shaped (vvty y) (ρ y) = true) → ∀ σ,
-      VMsl.evalTop M env ρ (.bin b lhs' rhs') σ = VIr.evalTop W ρ (.op o (.cons lhs (.cons rhs .nil))) σ :=
-  ⟨by simp [genMV, hf, genMBinary, hgl, hgr], sim_massign hag hw hf hgl hgr hok hpl hol hor hsem⟩
+      VMsl.evalTop M env ρ a σ = VIr.evalTop W ρ (.op o (.cons lhs (.cons rhs .nil))) σ := by
+  have htl : VIr.typeOf W.sig cx.vty vvty lhs = some T := by
+    simp only [VIr.assignOK] at hok
+    split at hok
+    · rename_i h1 h2 h3
+      split at hok
+      · rename_i heq; simp at hok; rw [h2, hok]
+      · simp at hok
+    · simp at hok
+  have hbk : VOk.basicK T.scalar = true := tyOKM_scalar (okMV_tyOK (S := side cx W vis rsv) lhs T htl hol)
+  have hshape := genMV_assign_shape hw hgl hgr hg htl hbk
+    (by rcases hsem with h | ⟨m, h, _⟩; exact .inl h; exact .inr ⟨m, h⟩)
+  refine ⟨hshape, ?_⟩
+  rcases hshape with ⟨hc, hfl, _, _, rfl⟩ | ⟨hn, b, hbs, rfl⟩
+  · exact sim_mremassign hag hw hc hgl hgr hok hpl hol hor hfl
+  · refine sim_massign hag hw hbs hgl hgr hok hpl hol hor ?_
+    rcases hsem with h | ⟨m, h, hside⟩
+    · exact .inl h
+    · exact .inr ⟨m, h, hside, fun hm hfl => hn ⟨by rw [h, hm], hfl⟩⟩
 
 /-! ## matrices: orientation -/
 
@@ -256,20 +280,125 @@ theorem msl_vector_op_literal_in_concrete_type :
    fun a h => gen_sem_msl_vec_expr agreeV C02Sem.worlds2 eIntVecTimesFlit a (.vec .float 3) h (by decide) (by decide),
    ⟨_, rfl, gen_sem_msl_vec_expr agreeV C02Sem.worlds2 eTernVecLit _ (.vec .int 3) rfl (by decide) (by decide)⟩⟩
 
-/-- **negation witness** (known finding *metal-cast-not-allowed*): a cast of a vector to a one-component vector type is
-emitted as a cast to the *scalar* name without the `.x` selection (`try_implicit_truncate` only looks for `Scalar(_)`):
-`(int1)v` with `v : int3` becomes `(int)v`, which has no type in Metal (no vector → scalar conversion) -/
-theorem narrowing_to_vec1_is_not_metal :
-    genMV C02Sem.cxW vvtyEx (.cast (.vec .int 1) (.vvar 1)) = .ok (.cast "int" (.ident "ll")) ∧
-    VMsl.typeOf C02Sem.M2.msig envV (.cast "int" (.ident "ll")) = none ∧
+/-- the one-element vector holding a scalar value: what a value of type `T1` is in the typed semantics, while Metal — where
+`T1` is the scalar `T` — holds the scalar itself -/
+def vec1Of : VVal → VVal
+  | .sc x => .vec [x]
+  | v => v
+
+/-- **a cast of a vector to a one-component vector is exported and keeps its meaning** — the positive statement that replaces
+the negation witness `narrowing_to_vec1_is_not_metal` (known finding *metal-cast-not-allowed*: `(int1)v` was emitted as
+`(int)v`, no vector → scalar conversion in Metal) after fix b6f2da1: for every operand `e` of a vector type with 2–4
+components inside the side conditions and every basic kind `t`, the exporter writes `(t1)e` exactly as it writes the scalar
+cast `(t)e` — `(t)e'.x`, `try_implicit_truncate` now selects `.x` for a one-component target too —, the emitted expression has
+the Metal type `t` (the scalar that `t1` is on Metal), and its value is the single component of the typed cast's value, with the
+same store, for every store, every interpretation of the primitives and every well-shaped value of the vector variables. -/
+theorem cast_to_vec1_selects_first_component {W : World} {M : Msl.MWorld} {env : VAst.VEnv} {cx : Ctx} {vvty : Var → VTy}
+    {vis : Var → Bool} {rsv : Nat → List Var} (hag : VAgreeM cx vis env vvty) (hw : Worlds cx rsv W M)
+    (e : VExpr) (t k : Ty) (m : Nat) (a : VAExpr)
+    (hte : VIr.typeOf W.sig cx.vty vvty e = some (.vec k m)) (hoke : VOk.okMV (side cx W vis rsv) vvty e = true)
+    (hbt : VOk.basicK t = true) (hg : genMV cx vvty (.cast (.vec t 1) e) = .ok a) :
+    genMV cx vvty (.cast (.sc t) e) = .ok a ∧
+    VMsl.typeOf M.msig env a = some (.sc t) ∧
+    ∀ ρ, (∀ x, VOk.shaped (vvty x) (ρ x) = true) → ∀ σ,
+      VIr.eval W ρ (.cast (.vec t 1) e) σ = (VMsl.eval M env ρ a σ).map (fun r => (vec1Of r.1, r.2)) := by
+  have hoe := okMV_tyOK (S := side cx W vis rsv) e (.vec k m) hte hoke
+  have hgt := getTy_ok hw.ret e (.vec k m) hte
+  have hm2 : 2 ≤ m := by
+    simp only [VOk.tyOKM, Bool.and_eq_true, decide_eq_true_eq] at hoe; exact hoe.1.2
+  -- the two casts are generated alike
+  have hsame : genMV cx vvty (.cast (.sc t) e) = genMV cx vvty (.cast (.vec t 1) e) := by
+    have hn1 : ¬ ((VTy.sc t = .sc .lit) ∨ (VTy.sc t = .sc .flit)) := by
+      intro h; rcases h with h | h <;> (injection h with h; subst h; simp [VOk.basicK] at hbt)
+    have hn2 : ¬ ((VTy.vec t 1 = .sc .lit) ∨ (VTy.vec t 1 = .sc .flit)) := by intro h; rcases h with h | h <;> cases h
+    simp only [genMV, hgt, hn1, hn2, if_false]
+    cases genMV cx vvty e with
+    | error err => rfl
+    | ok inner =>
+      simp only [GenMslVec.vtypeName, GenMslVec.dimSuffix, implicitTruncate]
+      cases typeName t with
+      | error err => rfl
+      | ok n => simp
+  have hgs : genMV cx vvty (.cast (.sc t) e) = .ok a := hsame.trans hg
+  have hts : VIr.typeOf W.sig cx.vty vvty (.cast (.sc t) e) = some (.sc t) := by
+    have : ¬ (t = .lit ∨ t = .flit ∨ t = .void) := by
+      intro h; rcases h with h | h | h <;> subst h <;> simp [VOk.basicK] at hbt
+    simp [VIr.typeOf, hte, VTy.scalar, this]
+  have hoks : VOk.okMV (side cx W vis rsv) vvty (.cast (.sc t) e) = true := by
+    simp only [VOk.okMV, VOk.tyOKM, hbt, Bool.true_and, Bool.or_eq_true, Bool.and_eq_true]
+    right
+    refine ⟨hoke, ?_⟩
+    have : VIr.typeOf (side cx W vis rsv).sig (side cx W vis rsv).vty vvty e = some (.vec k m) := hte
+    rw [this]
+    simp only [VOk.tyOKM, Bool.and_eq_true, decide_eq_true_eq] at hoe
+    simp [VOk.castFits, VOk.tyOKM, hoe]
+  have hmain := gen_sem_msl_vec_expr hag hw (.cast (.sc t) e) a (.sc t) hgs hts hoks
+  refine ⟨hgs, hmain.1, fun ρ hρ σ => ?_⟩
+  rw [hmain.2 ρ hρ σ]
+  simp only [VIr.eval]
+  cases hv : VIr.eval W ρ e σ with
+  | none => rfl
+  | some r =>
+    obtain ⟨v, σ1⟩ := r
+    have hs := vec_shape_sound hρ e (.vec k m) σ σ1 v hte hv
+    obtain ⟨xs, rfl, hlen⟩ := shaped_vec hs
+    match xs, hlen with
+    | x :: y :: r2, _ =>
+      simp only [castShapeR, castShape, List.take, List.length_cons]
+      have h1 : 1 ≤ r2.length + 1 + 1 := by omega
+      simp only [h1, if_true, mapOpt]
+      cases castVal W.P t x <;> simp [vec1Of]
+    | [], h0 => simp at h0; omega
+    | [x], h0 => simp at h0; omega
+
+/-- the instance that was the negation witness: `(int1)v` with `v : int3` is exported as `(int)v.x`, typed `int` in Metal -/
+example :
+    genMV C02Sem.cxW vvtyEx (.cast (.vec .int 1) (.vvar 1)) = .ok (.cast "int" (.member (.ident "ll") "x")) ∧
+    VMsl.typeOf C02Sem.M2.msig envV (.cast "int" (.member (.ident "ll") "x")) = some (.sc .int) ∧
     VIr.typeOf C02Sem.W2.sig C02Sem.cxW.vty vvtyEx (.cast (.vec .int 1) (.vvar 1)) = some (.vec .int 1) :=
   ⟨rfl, by decide, by decide⟩
+
+/-- the opposite direction of fix b6f2da1: a one-component operand is a scalar on Metal and gets no member selection -/
+example : implicitTruncate (.vec .float 1) (.sc .float) (.ident "v") = .ident "v" ∧
+    implicitTruncate (.vec .float 3) (.vec .float 1) (.ident "v") = .member (.ident "v") "x" := ⟨rfl, rfl⟩
 
 /-- `gen_sem_msl_vec_assign` instantiated: `v1.zx += (int2)s0;` -/
 example : ∀ ρ, (∀ y, VOk.shaped (vvtyEx y) (ρ y) = true) → ∀ σ,
     VMsl.evalTop C02Sem.M2 envV ρ (.bin .SumAssignment (.member (.ident "ll") "zx") (.cast "int2" (.sc (.ident "l")))) σ =
       VIr.evalTop C02Sem.W2 ρ (.op .SumAssignment (.cons (.swz (.vvar 1) [.Z, .X]) (.cons (.cast (.vec .int 2) (.sc (.var 0))) .nil))) σ :=
   (gen_sem_msl_vec_assign agreeV C02Sem.worlds2 (o := .SumAssignment) (T := .vec .int 2) rfl rfl rfl (by decide) (by decide) (by decide) (by decide)
-    (Or.inr ⟨.add, rfl, trivial, by simp⟩)).2
+    (Or.inr ⟨.add, rfl, trivial⟩)).2
+
+/-! ### `%=` on floating-point vectors (fixes 92d66eb + 35faaaa) -/
+
+def vvtyF : Var → VTy := fun _ => .vec .float 3
+def envF : VAst.VEnv := { base := C02Sem.envW, vres := C02Sem.envW.res, vvty := vvtyF }
+theorem agreeF : VAgreeM C02Sem.cxW (fun _ => true) envF vvtyF where
+  base := C02Sem.agreeW
+  vres x _ := C02Sem.agreeW.res x rfl
+  vvty := rfl
+
+/-- **`v %= w` on float vectors is exported and keeps its meaning** — the positive statement for the known finding
+*metal-remainder-operator-on-floats* (`v %= w` was emitted unchanged; Metal has no `%=` on floats): the exporter writes
+`v = metal::fmod(v, w)` (also for a swizzled target, `v.zx = metal::fmod(v.zx, w.xy)`), Metal accepts it, and it leaves the
+value, store and vector store of the typed `%=`; a right operand that may write (`v %= (float3)(i++)`) or a target that is not a
+plain place is refused with `ComplexRemainderAssignment` instead of being reordered / evaluated twice. -/
+theorem msl_float_remainder_assignment_keeps_meaning :
+    genMV C02Sem.cxW vvtyF (.op .RemainderAssignment (.cons (.vvar 1) (.cons (.vvar 2) .nil))) =
+      .ok (.bin .Assignment (.ident "ll") (.call "metal::fmod" (.cons (.ident "ll") (.cons (.ident "lll") .nil)))) ∧
+    (∀ ρ, (∀ y, VOk.shaped (vvtyF y) (ρ y) = true) → ∀ σ,
+      VMsl.evalTop C02Sem.M2 envF ρ (.bin .Assignment (.ident "ll") (.call "metal::fmod" (.cons (.ident "ll") (.cons (.ident "lll") .nil)))) σ =
+        VIr.evalTop C02Sem.W2 ρ (.op .RemainderAssignment (.cons (.vvar 1) (.cons (.vvar 2) .nil))) σ) ∧
+    genMV C02Sem.cxW vvtyF (.op .RemainderAssignment (.cons (.swz (.vvar 1) [.Z, .X]) (.cons (.swz (.vvar 2) [.X, .Y]) .nil))) =
+      .ok (.bin .Assignment (.member (.ident "ll") "zx")
+        (.call "metal::fmod" (.cons (.member (.ident "ll") "zx") (.cons (.member (.ident "lll") "xy") .nil)))) ∧
+    genMV C02Sem.cxW vvtyF (.op .RemainderAssignment (.cons (.vvar 1)
+      (.cons (.cast (.vec .float 3) (.sc (.op .PostfixIncrement (.cons (.var 0) .nil)))) .nil))) =
+        .error (.diag "ComplexRemainderAssignment") ∧
+    genMV C02Sem.cxW vvtyF (.op .RemainderAssignment (.cons (.tern (.sc (.var 0)) (.vvar 1) (.vvar 2)) (.cons (.vvar 2) .nil))) =
+        .error (.diag "ComplexRemainderAssignment") := by
+  refine ⟨rfl, ?_, rfl, rfl, rfl⟩
+  exact (gen_sem_msl_vec_assign agreeF C02Sem.worlds2 (o := .RemainderAssignment) (T := .vec .float 3) rfl rfl rfl
+    (by decide) (by decide) (by decide) (by decide) (Or.inr ⟨.mod, rfl, trivial⟩)).2
 
 end RsslVerif.Thm.C02Vec
